@@ -152,6 +152,8 @@ def serde_names(m, indent):
         out += "\n%s#[sv::attr(serde(rename(serialize = \"%s\")))]" % (indent, m["ser"])
     for a in m.get("aliases", []):
         out += "\n%s#[sv::attr(serde(alias = \"%s\"))]" % (indent, a)
+    if m.get("hattr"):
+        out += "\n%s#[sv::attr(%s)]" % (indent, m["hattr"])
     return out
 
 
